@@ -7,6 +7,7 @@ import (
 	"sort"
 	"strings"
 	"testing"
+	"time"
 
 	"github.com/onheap/eval"
 	"pgregory.net/rapid"
@@ -26,7 +27,7 @@ type C20Case struct {
 	Nums    map[string]int64 `json:"nums,omitempty"`
 	Bools   map[string]bool  `json:"bools,omitempty"`
 	Dnes    []string         `json:"dnes,omitempty"`
-	IntKind int              `json:"int_kind,omitempty"` // Go type the numeric variables are handed over as: 0 int64, 1 int, 2 int32, 3 int16
+	IntKind int              `json:"int_kind,omitempty"` // Go type the numeric variables are handed over as: 0 int64, 1 int, 2 int32, 3 int16, 4 time.Duration (that many seconds plus a sub-second rest), 5 time.Time
 }
 
 func genC20(t *rapid.T) C20Case {
@@ -37,12 +38,19 @@ func genC20(t *rapid.T) C20Case {
 		Var:     rapid.Bool().Draw(t, "var"),
 		Cond:    rapid.Bool().Draw(t, "cond"),
 		Try:     rapid.Bool().Draw(t, "try"),
-		IntKind: rapid.IntRange(0, 3).Draw(t, "intkind"),
+		IntKind: rapid.IntRange(0, 5).Draw(t, "intkind"),
 	}
 	nn := rapid.IntRange(0, 4).Draw(t, "nnums")
 	c.Nums = map[string]int64{}
 	for i := 0; i < nn; i++ {
-		c.Nums[fmt.Sprintf("n%d", i)] = rapid.SampledFrom([]int64{0, 1, -1, 2, 7, -13, 100, 0, math.MinInt64, math.MaxInt64, -1}).Draw(t, "numval")
+		c.Nums[fmt.Sprintf("n%d", i)] = rapid.SampledFrom([]int64{0, 1, -1, 2, 7, -13, 100, 0, math.MinInt64, math.MaxInt64, -1, 1 << 24, 20000000, 1 << 30, -(1 << 27), math.MinInt32, math.MaxInt32, math.MinInt32, -2, 3}).Draw(t, "numval")
+	}
+	// now and then: just a most-negative value of some width and -1, in a small numeric expression
+	// (the one division whose quotient does not fit that width)
+	if rapid.IntRange(0, 9).Draw(t, "divpair") == 0 {
+		c.Nums = map[string]int64{"n0": rapid.SampledFrom([]int64{math.MinInt32, math.MinInt64, math.MinInt16, math.MinInt8, -(1 << 53)}).Draw(t, "floor"), "n1": -1}
+		c.Number, c.Var, c.Try = true, true, false
+		c.Level = rapid.IntRange(1, 3).Draw(t, "divlevel")
 	}
 	nb := rapid.IntRange(0, 3).Draw(t, "nbools")
 	c.Bools = map[string]bool{}
@@ -81,7 +89,19 @@ func checkC20(c C20Case, r *Rec) *Violation {
 	var real []interface{}
 	for _, n := range sortedKeys(c.Nums) {
 		var raw interface{} = c.Nums[n]
-		switch c.IntKind % 4 { // the documented normalisation makes these the same variable
+		switch c.IntKind % 6 { // the documented normalisation makes these the same variable
+		case 4:
+			if v := c.Nums[n]; v > -9000000000 && v < 9000000000 {
+				rest := []int64{999999999, 0, 999999998, 1, 500000000}[(uint64(v)+uint64(len(n)))%5]
+				if v < 0 {
+					rest = -rest
+				}
+				raw = time.Duration(v*1000000000 + rest)
+			}
+		case 5:
+			if v := c.Nums[n]; v > -60000000000 && v < 250000000000 {
+				raw = time.Unix(v, []int64{0, 999999999, 1}[uint64(v)%3]).UTC()
+			}
 		case 1:
 			raw = int(c.Nums[n])
 		case 2:
@@ -133,7 +153,7 @@ func checkC20(c C20Case, r *Rec) *Violation {
 	}
 	vars := map[string]interface{}{}
 	for n, v := range c.Nums {
-		vars[n] = v
+		vars[n] = v // (the raw value handed over normalises to exactly this number)
 	}
 	for n, v := range c.Bools {
 		vars[n] = v
